@@ -433,10 +433,25 @@ impl Scenario for C03Enumerate {
         let mut idx = cx.tape.draw(stride as u64) as usize;
         let mut count = 0usize;
         while idx < toks.len() {
-            for op in 0..3 {
+            for op in 0..4 {
                 let s = &toks[idx];
                 let damaged: Vec<u8> = match op {
                     0 => apply_sfault(&bytes, &SFault::Drop(s.start, s.end)),
+                    3 => {
+                        // a numeric token replaced by a value at or beyond the limit of an integer width (a stale or
+                        // misdirected block often shows up as an absurd number, and numbers are unchecked input anyway)
+                        let tok = &bytes[s.start..s.end];
+                        if s.kind != SpanKind::Tok || !tok.first().is_some_and(|c| c.is_ascii_digit() || *c == b'-') {
+                            continue;
+                        }
+                        let extremes: [&[u8]; 12] = [b"255", b"256", b"65535", b"65536", b"1000", b"4294967295", b"4294967296", b"18446744073709551615", b"18446744073709551616", b"-32769", b"-2147483649", b"0xFFFFFFFFFFFFFFFFFF"];
+                        let e = extremes[(idx + count) % extremes.len()];
+                        cx.probe("number-replaced-by-extreme-value");
+                        let mut v = bytes[..s.start].to_vec();
+                        v.extend_from_slice(e);
+                        v.extend_from_slice(&bytes[s.end..]);
+                        v
+                    }
                     1 => {
                         // duplicate the token including one separator
                         let mut v = bytes[..s.end].to_vec();
@@ -456,7 +471,7 @@ impl Scenario for C03Enumerate {
                         apply_sfault(&bytes, &SFault::Swap(s.start, s.end, nx.start, nx.end))
                     }
                 };
-                let opname = ["token-drop", "token-dup", "token-swap"][op];
+                let opname = ["token-drop", "token-dup", "token-swap", "number-extreme"][op];
                 let selected: Vec<Config> = if thorough { cfgs.clone() } else { vec![cfgs[(count + rot) % cfgs.len()]] };
                 for cfg in selected {
                     let label = cfg.label(w.fragment);
@@ -482,7 +497,7 @@ impl Scenario for C03Enumerate {
             }
             idx += stride;
         }
-        cx.fault_fired("storage:token-drop/dup/swap");
+        cx.fault_fired("storage:token-drop/dup/swap/number");
         cx.event(&format!("{count} token-level faults"));
         SimFs::uninstall();
         Ok(())
@@ -604,7 +619,8 @@ impl Scenario for C03TokenSoups {
     fn run(&self, cx: &mut Cx) -> Result<(), Violation> {
         let fs = SimFs::new("/work", cx.tape.draw_u64());
         fs.install();
-        let alphabet: [&str; 40] = [
+        let alphabet: [&str; 48] = [
+            "65535", "65536", "1000", "4294967296", "18446744073709551616", "-32769", "0xFFFFFFFFFFFFFFFFFF", "-9223372036854775809",
             "/begin", "/end", "/include", "A2ML", "IF_DATA", "PROJECT", "MODULE", "MEASUREMENT", "CHARACTERISTIC", "ASAP2_VERSION", "A2ML_VERSION", "\"", "\"\"", "\"x\"", "\"a\\\"b\"", "/*", "*/", "//", "\n", "\r\n", " ", "\t", "0", "1", "71", "-1", "0x", "0xFF",
             "1e3", "1e999", ".", "-", "ident", "a.b[1]", "9abc", "UBYTE", "block", "taggedstruct", ";", "{",
         ];
@@ -612,7 +628,18 @@ impl Scenario for C03TokenSoups {
         let mut text = String::new();
         // half of the soups start like a file so that the parser gets past the first tokens
         if cx.tape.chance(1, 2) {
-            text.push_str("ASAP2_VERSION 1 71 /begin PROJECT p \"\" /begin MODULE m \"\" ");
+            if cx.tape.chance(1, 4) {
+                // version numbers are unchecked input as well
+                let nums = ["0", "1", "2", "50", "71", "99", "255", "656", "1000", "65535", "65536", "0xFFFF", "-1", "4294967295", "1e3"];
+                text.push_str(&format!("ASAP2_VERSION {} {} ", cx.tape.pick_str(&nums), cx.tape.pick_str(&nums)));
+                if cx.tape.chance(1, 2) {
+                    text.push_str(&format!("A2ML_VERSION {} {} ", cx.tape.pick_str(&nums), cx.tape.pick_str(&nums)));
+                }
+                text.push_str("/begin PROJECT p \"\" /begin MODULE m \"\" ");
+                cx.probe("soup-with-unusual-version-numbers");
+            } else {
+                text.push_str("ASAP2_VERSION 1 71 /begin PROJECT p \"\" /begin MODULE m \"\" ");
+            }
         }
         // the small alphabet of the property statement half of the time, and a per-run separator probability
         let hot: [&str; 14] = ["/begin", "/end", "/include", "A2ML", "IF_DATA", "\"", "\"\"", "/*", "//", "1", "x", "\n", "é", "\"ü"];
